@@ -59,7 +59,7 @@ type Call struct {
 
 // Fault decides what happens to the n-th request of the current run.
 type Fault struct {
-	Mode string // "", "500", "502", "429", "403-rate", "stall", "refuse-after" (crash: this and all later requests of the run are refused), "lost-ack"
+	Mode string // "", "500", "502", "429", "403-rate", "stall", "refuse-after" (crash: this and all later requests of the run are refused), "lost-ack", "late-ack" (applied, answered too late)
 }
 
 const PintUser = 7
@@ -292,6 +292,14 @@ func (f *Forge) ServeHTTP(w http.ResponseWriter, r *http.Request) {
 	}
 	status, payload, applied, hdr := handler(r, body)
 	record(status, applied)
+	if flt.Mode == "late-ack" {
+		// applied at once, answered only after the client has given up waiting
+		select {
+		case <-time.After(90 * time.Second):
+		case <-r.Context().Done():
+		}
+		return
+	}
 	if flt.Mode == "lost-ack" {
 		// applied, but the client never learns it
 		if hj, ok := w.(http.Hijacker); ok {
